@@ -51,6 +51,11 @@ class cache_func(wrapper):
     def clear_cache(self):
         self.cache = {}
         return self
+
+    def __init__(self, function = None, *args, **kwargs):
+        super(cache_func, self).__init__(function, *args, **kwargs)
+        if isinstance(self.get(_cache), dict) and self[_cache] is not kwargs.get(_cache):
+            self[_cache] = dict(self[_cache]) ## results taken over from a cached function we were built around are a starting point: our own results never go into ITS dict
     
 
 
